@@ -8,7 +8,20 @@
 (*                   arg: argument class, amt: pay-amount class, gas: gas class, who: caller role, *)
 (*                   pair: "no" | "same" | "term" (the block also carries, FIRST, an attempt with  *)
 (*                   too little gas by the same sender - of the same call, or of a termination:    *)
-(*                   two contract transactions share one block state and one VM environment)].     *)
+(*                   two contract transactions share one block state and one VM environment)       *)
+(*                   | "sw-<mid>-<tail>": a SANDWICH block, see below].                            *)
+(* A sandwich block is  [the operation, well-formed and with enough gas]                           *)
+(*   + <mid>: a balance change OUTSIDE any contract environment in between -                       *)
+(*       none | self (the operation pays its own sender: the sender's fee is charged outside)      *)
+(*       | cin (a plain transfer INTO the contract) | xout (the operation pays an account X and    *)
+(*       X makes a plain transfer out)                                                             *)
+(*   + <tail>: further contract transactions in the same block -                                   *)
+(*       again (the operation once more) | emb (a successful call of ANOTHER, embedded contract)   *)
+(*       | wasm (of another, wasm contract) | fail (a failing call of another contract)            *)
+(*       | two (the other embedded contract, then the operation again: three contract txs)         *)
+(*       | termemb (a termination of the contract itself, then the other embedded contract).       *)
+(* Whatever an earlier transaction leaves in the execution context of the block (buffered absolute *)
+(* balances, store entries, deployments) must not reach the state with a later one.                *)
 (* The lifecycle (deployed? how far initialised? funded? terminated?) only STEERS the generator   *)
 (* towards deep states: a well-formed operation by the right caller with enough gas is expected to*)
 (* advance it, everything else is expected to leave it where it is.  Nothing here is a verdict:    *)
@@ -66,13 +79,20 @@ Dev(k, op) == (IF op.arg # "valid" THEN 1 ELSE 0) + (IF op.amt # DefAmt(k, op.m)
               + (IF op.gas # "enough" THEN 1 ELSE 0) + (IF op.who # DefWho(k, op.m) THEN 1 ELSE 0)
               + (IF op.pair # "no" THEN 1 ELSE 0)
 
+Sandwiches == {"sw-" \o md \o "-" \o tl : md \in {"none", "self", "cin", "xout"}, tl \in {"again", "emb", "wasm", "fail", "two", "termemb"}}
+IsSandwich(op) == op.pair \in Sandwiches
+
 TxOps(k) == {[m |-> m, arg |-> a, amt |-> p, gas |-> g, who |-> r, pair |-> pr] :
                 m \in Methods(k) \cup {"deploy", "terminate", "unknown"},
-                a \in ArgClasses, p \in AmtClasses, g \in GasClasses, r \in Roles, pr \in {"no", "same", "term"}}
+                a \in ArgClasses, p \in AmtClasses, g \in GasClasses, r \in Roles, pr \in {"no", "same", "term"} \cup Sandwiches}
 Ops(k) == {op \in TxOps(k) :
               /\ Dev(k, op) <= MaxDev
-              /\ (op.pair # "no" => Embedded(k) /\ op.gas \in {"exact", "enough"})
+              /\ (op.pair \in {"same", "term"} => Embedded(k) /\ op.gas \in {"exact", "enough"})
               /\ (op.pair = "term" => op.m # "deploy")
+              /\ (IsSandwich(op) => /\ (op.arg = "valid" \/ (op.arg = "valid2" /\ op.pair \in {"sw-self-again", "sw-cin-again", "sw-xout-emb"}))
+                                    /\ op.gas = "enough" /\ op.m # "unknown"
+                                    /\ (op.pair \in {"sw-none-termemb", "sw-self-termemb", "sw-cin-termemb", "sw-xout-termemb"} => Embedded(k) /\ op.m # "terminate")
+                                    /\ op.amt = DefAmt(k, op.m) /\ op.who = DefWho(k, op.m))
               /\ (op.m = "terminate" => op.amt = "zero")}
           \cup {[m |-> "fund", arg |-> "valid", amt |-> "big", gas |-> "enough", who |-> "other", pair |-> "no"],
                 [m |-> "wait", arg |-> "valid", amt |-> "zero", gas |-> "enough", who |-> "other", pair |-> "no"]}
@@ -149,8 +169,9 @@ Init == /\ c \in Contracts /\ w \in Presets(c)
 Next == \E op \in OpsOf[c] :
           /\ (s.life = "live" \/ (s.life = "none" /\ op.m = "deploy"))
           /\ (op.m = "longwait" => s.stage = 1)          \* (the long wait is only worth its > 30000 blocks where it leads somewhere)
-          /\ s' = Step(c, s, op)
-          /\ hist' = Append(hist, op @@ [good |-> (Step(c, s, op) # s)])
+          \* (a sandwich never lies on the path to a lifecycle state: it is generated as a last step only)
+          /\ s' = IF IsSandwich(op) THEN s ELSE Step(c, s, op)
+          /\ hist' = Append(hist, op @@ [good |-> (Step(c, s, [op EXCEPT !.pair = "no"]) # s)])
           /\ UNCHANGED <<c, w>>
 
 Export == IF ExportOn THEN PrintT(ToJson([c |-> c, w |-> w, path |-> hist'])) ELSE TRUE
